@@ -34,7 +34,7 @@ def main():
     ap.add_argument("demo", nargs="?")
     ap.add_argument("--checks", default="")
     ap.add_argument("--needs", default="")
-    ap.add_argument("--tier", default="quick")
+    ap.add_argument("--tier", default=None)
     ap.add_argument("--keep-anyway", action="store_true")
     a = ap.parse_args()
     stored = os.path.join(VERIF, "seeded", a.seed)
@@ -44,6 +44,8 @@ def main():
         a.patch, a.demo = os.path.join(stored, "patch.diff"), os.path.join(stored, "demo.py")
         a.needs = a.needs or old.get("needs_to_manifest", "")
         a.checks = a.checks or ",".join(old.get("checks", {}))
+        a.tier = a.tier or old.get("tier")
+    a.tier = a.tier or "quick"
     checks = [c for c in (a.checks or a.prop).split(",") if c]
     wt = "/tmp/seedwt_%s_%d" % (a.seed, os.getpid())
     meta = {"seed": a.seed, "breaks_property": a.prop, "needs_to_manifest": a.needs, "ran": [], "checks": {}, "tier": a.tier}
